@@ -345,26 +345,34 @@ func (vc *VC) convertInt(x string, from, to types.Type) string {
 // strings ---------------------------------------------------------------
 
 func (vc *VC) strConcat(x, y string) string {
-	key := "cat:" + x + "|" + y
-	if n, ok := vc.strLits[key]; ok {
-		return n
-	}
-	c := vc.freshConst("cat", "Str")
-	vc.strLits[key] = c
-	lx, ly, lc := vc.strLen(x), vc.strLen(y), vc.strLen(c)
 	if vc.isBV() {
+		key := "cat:" + x + "|" + y
+		if n, ok := vc.strLits[key]; ok {
+			return n
+		}
+		c := vc.freshConst("cat", "Str")
+		vc.strLits[key] = c
+		lx, ly, lc := vc.strLen(x), vc.strLen(y), vc.strLen(c)
 		vc.assume(fmt.Sprintf("(= %s (bvadd %s %s))", lc, lx, ly))
 		vc.assume(fmt.Sprintf("(forall ((k (_ BitVec 64))) (! (=> (and (bvsle (_ bv0 64) k) (bvslt k %s)) (= (sat %s k) (sat %s k))) :pattern ((sat %s k))))", lx, c, x, c))
 		return c
 	}
-	vc.assume(fmt.Sprintf("(= %s (+ %s %s))", lc, lx, ly))
-	// bytes of the left part: absolute indices on both sides
-	vc.assume(fmt.Sprintf("(forall ((k Int)) (! (=> (and (<= 0 k) (< k %s)) (= (sat %s k) (sat %s k))) :pattern ((sat %s k))))", lx, c, x, c))
-	// bytes of the right part when it is a literal (absolute indices)
-	for lit, name := range vc.strLits {
-		if name == y && !strings.Contains(lit, ":") && len(lit) <= 8 && vc.isPlainLit(lit, name) {
-			for i := 0; i < len(lit); i++ {
-				vc.assume(fmt.Sprintf("(= (sat %s (+ %s %d)) %d)", c, lx, i, lit[i]))
+	// int mode: concatenation is a function symbol with its defining axioms
+	if !vc.declared["f:strcat"] {
+		vc.decl("f:strcat", "(declare-fun strcat (Str Str) Str)")
+		vc.assume("(forall ((x Str) (y Str)) (! (= (slen (strcat x y)) (+ (slen x) (slen y))) :pattern ((strcat x y))))")
+		vc.assume("(forall ((x Str) (y Str) (k Int)) (! (=> (and (<= 0 k) (< k (slen x))) (= (sat (strcat x y) k) (sat x k))) :pattern ((sat (strcat x y) k))))")
+	}
+	c := fmt.Sprintf("(strcat %s %s)", x, y)
+	key := "catfacts:" + c
+	if _, ok := vc.strLits[key]; !ok && !strings.Contains(c, "qv!") && !strings.Contains(c, "pa!") {
+		vc.strLits[key] = c
+		// bytes of the right part when it is a short literal (absolute indices)
+		for lit, name := range vc.strLits {
+			if name == y && strings.HasPrefix(name, "lit!") && len(lit) <= 8 {
+				for i := 0; i < len(lit); i++ {
+					vc.assume(fmt.Sprintf("(= (sat %s (+ (slen %s) %d)) %d)", c, x, i, lit[i]))
+				}
 			}
 		}
 	}
